@@ -271,6 +271,9 @@ func (x *Exec) exitNormal(s *State, rs []Val) {
 		}
 		s.goal(x.entryKey+"#post:"+name, "post", e.Props(), t, e.Where, e.Src)
 	}
+	if c.AllocPlain && s.alloc.S != s.oldAlloc.S {
+		s.goal(x.entryKey+"#alloc-plain", "frame", nil, x.w.plainGap(s.oldAlloc, s.alloc), c.Where, "the function creates no Scope and no graphHolder")
+	}
 	x.frameGoals(s, c)
 	x.typeInvPreserved(s)
 }
@@ -629,8 +632,13 @@ func (x *Exec) loopEntry(s *State, li *loopInfo, from *ssa.BasicBlock) {
 	if x.loopAllocates(li) {
 		na := s.fresh("$alloc", "Int")
 		s.assume(app("Bool", ">=", na, s.alloc))
+		if x.contract != nil && x.contract.AllocPlain && li.fn == x.entry {
+			// earlier iterations created no Scope and no graphHolder (checked at the back edge)
+			s.assume(x.w.plainGap(s.alloc, na))
+		}
 		s.alloc = na
 	}
+	fr.loopAllocBase = s.alloc
 	// havoc: phis
 	nphi := 0
 	for _, in := range li.header.Instrs {
@@ -734,6 +742,9 @@ func (x *Exec) cover(s *State, name string) {
 func (x *Exec) loopBackEdge(s *State, li *loopInfo, from *ssa.BasicBlock) {
 	x.setPhis(s, li, from)
 	s.comment("loop back edge %s", li.key)
+	if x.contract != nil && x.contract.AllocPlain && li.fn == x.entry && s.frame.loopAllocBase.S != "" && s.frame.loopAllocBase.S != s.alloc.S {
+		s.goal(x.entryKey+"#alloc-plain", "frame", nil, x.w.plainGap(s.frame.loopAllocBase, s.alloc), "", "the loop body creates no Scope and no graphHolder")
+	}
 	x.checkInvariants(s, li, "inv-preserve")
 }
 
